@@ -26,7 +26,7 @@ ASSUMPTIONS = [
     "identity tolerances: residuals 1e-9 relative, pseudo chi-squared 1e-8 relative, circuit impedance 1e-9 relative (measured head-room: six orders of magnitude)",
     "BHT and the differential-evolution extension search are documented-stochastic: compared under a pinned global numpy RNG state",
 ]
-EXPECTED_PROBES = ["F2", "variant_garbage", "variant_ascending", "shared_memory_runs", "identities_checked"]
+EXPECTED_PROBES = ["F2", "variant_garbage", "variant_ascending", "variant_mask_history", "shared_memory_runs", "identities_checked"]
 
 PLAN = {
     "quick": {"workloads": 96, "variants": 60, "wall_budget": 30.0, "min_variants": 6, "wall_limit": 1500.0, "per_job_limit": 900.0},
@@ -47,18 +47,21 @@ def draw_config(rng, wl, tier):
         "faults": ["F2"] if rng.random() < 0.4 else [], "dur_scale": 0.01, "fail": [],
         "shared_memory": rng.random() < 0.2, "callbacks": rng.choice([0, 1]), "extra_kwargs": None,
         "data_variant": {"garbage": rng.randrange(1, 10**6) if rng.random() < 0.6 else None,
-                         "order": "asc" if rng.random() < 0.35 else "desc"},
+                         "order": "asc" if rng.random() < 0.35 else "desc",
+                         "history": rng.randrange(1, 10**6) if rng.random() < 0.3 else None},
     }
     return cfg
 
 
 def _variant(wl, dv):
-    if not dv or (dv.get("garbage") is None and dv.get("order", "desc") == "desc"):
+    if not dv or (dv.get("garbage") is None and dv.get("order", "desc") == "desc" and dv.get("history") is None):
         return wl
     w2 = dict(wl)
     w2["data"] = dict(wl["data"])
     if dv.get("garbage") is not None:
         w2["data"]["garbage"] = dv["garbage"]
+    if dv.get("history") is not None:
+        w2["data"]["history"] = dv["history"]
     w2["data"]["order"] = dv.get("order", "desc")
     return w2
 
@@ -69,6 +72,16 @@ def evaluate(wl, cfg, dec, ctx):
     wv = _variant(wl, dv)
     out = run_entry(wv, cfg, dec, ctx.cache)
     if out.status == "skipped":
+        if out.skipped == "dataset_mismatch":
+            # The data set handed to the analysis does not present the unmasked points it was built
+            # from (ascending input with a mask, or a set_mask history on one object).  With the
+            # DataSet defects of C05 repaired this never happens on the unchanged tree; when it does,
+            # masked points reach every analysis, which is this property's last sentence.
+            what = [k for k in ("order", "history", "garbage") if dv.get(k) not in (None, "desc")]
+            return out, [{
+                "clause": "masked-points-ignored", "key": {"clause": "masked-points-ignored", "entry": "DataSet", "variant": "+".join(what) or "plain"},
+                "detail": f"the data set built for {wl['entry']} (variant {dv}) does not present the unmasked points it was built from: analyses would see masked points",
+                "expected": None, "observed": None}]
         return out, []
     out.probes = dict(out.probes or {})
     if dv.get("garbage") is not None:
@@ -77,6 +90,10 @@ def evaluate(wl, cfg, dec, ctx):
         out.fired["F9"] = out.fired.get("F9", 0) + 1
     if dv.get("order") == "asc":
         out.probes["variant_ascending"] = 1
+        out.fired = dict(out.fired or {})
+        out.fired["F9"] = out.fired.get("F9", 0) + 1
+    if dv.get("history") is not None:
+        out.probes["variant_mask_history"] = 1
         out.fired = dict(out.fired or {})
         out.fired["F9"] = out.fired.get("F9", 0) + 1
     if cfg.get("shared_memory"):
@@ -113,6 +130,8 @@ def evaluate(wl, cfg, dec, ctx):
                 what.append("garbage on the masked points")
             if dv.get("order") == "asc":
                 what.append("ascending input order")
+            if dv.get("history") is not None:
+                what.append("the same final mask reached through a set_mask history on one object")
             if what:
                 add("masked-points-ignored", f"{wl['entry']}({opts}) result changes with {' and '.join(what)}: {d}")
             else:
